@@ -1050,3 +1050,173 @@ Qed.
 Print Assumptions roundtrip_struct_static.
 Lemma tneed_overflow n e sid : (length e <= sid)%nat -> tneed (S n) e (TStruct sid) = 4%nat.
 Proof. intros H. cbn [tneed]. unfold fields_of. rewrite nth_overflow by assumption. reflexivity. Qed.
+
+(* ================= C04: unknown fields, absent members ================= *)
+Lemma encx_length_ge e : forall fds vs Js lo,
+  Forall2 (fun fd x => has_type e (fty fd) x) fds vs -> junks_ok lo fds Js ->
+  (length (enc_fields e vs fds) <= length (encx_fields e vs fds Js))%nat.
+Proof.
+  induction fds as [|fd fds IH]; intros vs Js lo Hty HJ; inversion Hty; subst.
+  - cbn. lia.
+  - destruct Js as [|J Js]; [contradiction|]. destruct HJ as [_ HJs].
+    cbn [enc_fields encx_fields]. rewrite !app_length. specialize (IH _ _ _ H3 HJs). lia.
+Qed.
+
+Definition trailing_ok (fds : schema) (Jl : list (N * wf)) : Prop :=
+  Forall (fun p => fst p < 256 /\ forall fd, In fd fds -> ftag fd < fst p) Jl.
+Lemma follows_trailing fds Jl fd : trailing_ok fds Jl -> In fd fds -> follows (ftag fd) (ser_fields Jl).
+Proof.
+  intros Ht Hin. destruct Jl as [|[t w] Jl]; [now left|]. inversion Ht as [|? ? [H1 H2] _]; subst. cbn [fst] in *.
+  right. exists (ty_of w), t. eexists. repeat split; [apply ty_of_lt|assumption|apply ser_fields_cons|]. right. now apply H2.
+Qed.
+
+(* unknown fields before any member and after the last one change neither the value nor success; the cursor
+   stops exactly in front of the trailing unknown fields *)
+Theorem extras_ignored e k n sid vs Js Jl :
+  wf_schema k e -> (S k <= 64)%nat -> tfin n e (TStruct sid) = true -> (tneed n e (TStruct sid) + k <= 64)%nat ->
+  has_type e (TStruct sid) (VStruct vs) ->
+  junks_ok None (fields_of e sid) Js -> trailing_ok (fields_of e sid) Jl ->
+  decode e sid (encx_fields e vs (fields_of e sid) Js ++ ser_fields Jl) = DOk (norm_struct e sid (VStruct vs)) (ser_fields Jl)
+  /\ decode e sid (encode e sid (VStruct vs)) = DOk (norm_struct e sid (VStruct vs)) [].
+Proof.
+  intros Hwf Hk Hfin Hn Hty HJ HJl. split; [|now apply (roundtrip_struct_static e k n)].
+  unfold decode. apply (decode_into_extras e k); try assumption.
+  - now apply (zero_struct_zlike e k).
+  - intros fd Hin. now apply (follows_trailing (fields_of e sid)).
+  - pose proof (need_top e n sid vs Hfin Hty) as H1. rewrite encode_fields in H1.
+    inversion Hty as [| | | | |? ? Hvs]; subst; [discriminate|].
+    pose proof (encx_length_ge e _ _ _ _ Hvs HJ). rewrite app_length. lia.
+Qed.
+
+(* a member that is absent from the input: what follows is the end, a StructEnd or a larger tag *)
+Lemma member_absent_required e f tag t prior lo J rest : junk_ok lo tag J -> follows tag rest ->
+  (2 * length (ser_fields J ++ rest) + 3 <= f)%nat ->
+  dec_var (S f) e tag true t prior (ser_fields J ++ rest) = DErr.
+Proof.
+  intros HJ Hfo Hf. destruct (fuel_sub J rest f Hf) as (f' & Ef & Hf').
+  assert (Hs : skip_to_no_check f tag true (ser_fields J ++ rest) = SeekErr).
+  { rewrite (seek_junk J f lo) by assumption. rewrite Ef. now apply seek_stop_req. }
+  destruct t; try (rewrite dec_var_scalar by reflexivity; rewrite (dec_scalar_junk J f lo) by assumption;
+                   rewrite Ef; now apply dec_scalar_absent_req).
+  - rewrite dec_var_vec. now rewrite Hs.
+  - rewrite dec_var_map. unfold skip_to. now rewrite Hs.
+  - rewrite dec_var_arr. now rewrite Hs.
+  - rewrite dec_var_struct. cbv zeta. unfold skip_to. now rewrite Hs.
+Qed.
+(* an absent optional member of a non-struct type keeps the target's value (the declared default after
+   ResetDefault, else the zero value of a fresh target), and nothing is consumed *)
+Lemma member_absent_optional e f tag t prior lo J rest : junk_ok lo tag J -> follows tag rest ->
+  (match t with TStruct _ => False | _ => True end) ->
+  (2 * length (ser_fields J ++ rest) + 3 <= f)%nat ->
+  dec_var (S f) e tag false t prior (ser_fields J ++ rest) = DOk prior rest.
+Proof.
+  intros HJ Hfo Hns Hf. destruct (fuel_sub J rest f Hf) as (f' & Ef & Hf').
+  assert (Hs : skip_to_no_check f tag false (ser_fields J ++ rest) = NotFound rest).
+  { rewrite (seek_junk J f lo) by assumption. rewrite Ef. now apply seek_stop. }
+  destruct t; try (rewrite dec_var_scalar by reflexivity; rewrite (dec_scalar_junk J f lo) by assumption;
+                   rewrite Ef; now apply dec_scalar_absent).
+  - rewrite dec_var_vec. now rewrite Hs.
+  - rewrite dec_var_map. unfold skip_to. now rewrite Hs.
+  - rewrite dec_var_arr. now rewrite Hs.
+  - contradiction.
+Qed.
+
+Lemma ascending_app_l p a b : ascending p (a ++ b) -> ascending p a.
+Proof. revert p. induction a as [|x a IH]; intros p H; [exact I|]. cbn [app ascending] in *. destruct H as (H1 & H2 & H3). repeat split; try assumption. now apply IH. Qed.
+Lemma ascending_app_mid p a fd b : ascending p (a ++ fd :: b) -> p < ftag fd /\ ftag fd < 256 /\ ascending (ftag fd) b.
+Proof.
+  revert p. induction a as [|x a IH]; intros p H; cbn [app ascending] in H.
+  - tauto.
+  - destruct H as (H1 & H2 & H3). destruct (IH _ H3) as (A & B & C). repeat split; try assumption. lia.
+Qed.
+
+Section Absent.
+Variable e : env.
+Variable k : nat.
+Hypothesis Hwf : wf_schema k e.
+
+(* the members before a missing required member decode; the missing one is an error *)
+Lemma fields_required_absent : forall fuel fds1 vs1 ps1 ps2 Js lo fd fds2 tail,
+  Forall2 (fun fd x => has_type e (fty fd) x) fds1 vs1 -> Forall (member_ok e k) fds1 ->
+  asc_opt lo (fds1 ++ fd :: fds2) ->
+  Forall2 (fun fd p => prior_ok e (fty fd) (fdef fd) p) fds1 ps1 -> junks_ok lo fds1 Js ->
+  freq fd = true -> follows (ftag fd) tail ->
+  fuel_ok k (S (need_list vs1)) (encx_fields e vs1 fds1 Js ++ tail) fuel ->
+  dec_fields fuel e (fds1 ++ fd :: fds2) (ps1 ++ ps2) (encx_fields e vs1 fds1 Js ++ tail) = DErr.
+Proof.
+  induction fuel as [|f IH]; intros fds1 vs1 ps1 ps2 Js lo fd fds2 tail Hty Hmem Hasc Hps HJ Hreq Hfo Hf;
+    [unfold fuel_ok in Hf; lia|].
+  rewrite dec_fields_S. destruct Hty as [|fd1 x fds1 vs1 Hx Hvs].
+  - destruct Js; [|contradiction]. inversion Hps; subst. cbn [app encx_fields] in *. cbv zeta. rewrite Hreq.
+    destruct f as [|f0]; [unfold fuel_ok in Hf; lia|].
+    pose proof (member_absent_required e f0 (ftag fd) (fty fd) (match ps2 with p :: _ => p | [] => zero_of (S f0) e (fty fd) end)
+                  None [] tail (junk_nil None (ftag fd)) Hfo) as H1.
+    cbn [ser_fields app] in H1. rewrite H1; [reflexivity|]. unfold fuel_ok in Hf. cbn [need_list] in Hf. lia.
+  - inversion Hps as [|? p ? ps' Hp Hps']; subst. destruct Js as [|J Js]; [contradiction|]. destruct HJ as [HJ HJs].
+    inversion Hmem as [|? ? [Hm1 Hm2] Hmem']; subst.
+    assert (H256 : ftag fd1 < 256 /\ ascending (ftag fd1) (fds1 ++ fd :: fds2)).
+    { destruct lo; cbn [app asc_opt schema_ascending ascending] in Hasc; tauto. }
+    destruct H256 as [H256 Hasc'].
+    cbn [app encx_fields tl] in *. rewrite <- !app_assoc in *. cbv zeta.
+    unfold fuel_ok in Hf. cbn [need_list] in Hf. rewrite !app_length in Hf.
+    destruct (rt_all e k Hwf f) as (HV & _).
+    destruct (ascending_app_mid _ _ _ _ Hasc') as (Hlt & _ & _).
+    assert (H1 : dec_var f e (ftag fd1) (freq fd1) (fty fd1) p
+                   (ser_fields J ++ enc_var e (ftag fd1) (freq fd1) (fty fd1) (fdef fd1) x ++ encx_fields e vs1 fds1 Js ++ tail)
+                 = DOk (norm e (fty fd1) (freq fd1) (fdef fd1) x) (encx_fields e vs1 fds1 Js ++ tail)).
+    { apply (HV (ftag fd1) (freq fd1) (fty fd1) (fdef fd1) x p lo J); try assumption.
+      - right. apply (follows_encx e fds1 vs1 Js (ftag fd1)); try assumption; [lia|now apply ascending_app_l in Hasc'|].
+        apply (follows_mono _ (ftag fd)); [lia|assumption].
+      - unfold fuel_ok. rewrite !app_length. lia. }
+    rewrite H1.
+    rewrite (IH fds1 vs1 ps' ps2 Js (Some (ftag fd1)) fd fds2 tail); try assumption; [reflexivity|].
+    unfold fuel_ok. rewrite app_length. lia.
+Qed.
+End Absent.
+
+Lemma enc_fields_follows e : forall fds vs t, ascending t fds ->
+  Forall2 (fun fd x => has_type e (fty fd) x) fds vs -> follows t (enc_fields e vs fds).
+Proof.
+  intros fds vs t Hasc Hty. rewrite <- (app_nil_r (enc_fields e vs fds)).
+  rewrite <- (encx_nil e vs fds) by (now apply Forall2_len in Hty).
+  apply (follows_encx e fds vs _ t t); try assumption; [lia|apply junks_nil|apply follows_nil].
+Qed.
+
+Lemma tmax_app_l g a b : (tmax g a <= tmax g (a ++ b))%nat.
+Proof. induction a as [|x a IH]; cbn [tmax fold_right app]; [lia|]. fold (tmax g a). fold (tmax g (a ++ b)). lia. Qed.
+Lemma schema_ascending_mid a fd b : schema_ascending (a ++ fd :: b) -> ascending (ftag fd) b.
+Proof.
+  destruct a as [|x a]; cbn [app schema_ascending]; [tauto|]. intros [_ H]. apply ascending_app_mid in H. tauto.
+Qed.
+
+(* an input written without a member the reader requires is rejected *)
+Theorem required_absent e k n sid fds1 fd fds2 vs1 vs2 :
+  wf_schema k e -> (S k <= 64)%nat -> fields_of e sid = fds1 ++ fd :: fds2 -> freq fd = true ->
+  Forall2 (fun fd x => has_type e (fty fd) x) fds1 vs1 -> Forall2 (fun fd x => has_type e (fty fd) x) fds2 vs2 ->
+  tfin n e (TStruct sid) = true -> (tneed n e (TStruct sid) + k <= 64)%nat ->
+  decode e sid (enc_fields e vs1 fds1 ++ enc_fields e vs2 fds2) = DErr.
+Proof.
+  intros Hwf Hk Hsid Hreq H1 H2 Hfin Hn. unfold decode, decode_into.
+  set (bs := enc_fields e vs1 fds1 ++ enc_fields e vs2 fds2).
+  replace (4 * length bs + 64)%nat with (S (4 * length bs + 63)) by lia.
+  destruct (struct_priors1 e (4 * length bs + 63) sid (zero_struct e sid) (zero_struct_zlike e k sid Hwf Hk)) as (ps & -> & Hps).
+  pose proof (members_ok e k Hwf sid) as Hmem. pose proof (wf_asc k e Hwf sid) as Hasc.
+  destruct n as [|n']; [discriminate|]. cbn [tfin tneed] in Hfin, Hn. rewrite forallb_forall in Hfin.
+  rewrite Hsid in *.
+  apply Forall2_app_inv_l in Hps. destruct Hps as (ps1 & ps2 & Hps1 & _ & ->).
+  apply Forall_app in Hmem. destruct Hmem as [Hmem1 _].
+  assert (Hb : (need_list vs1 <= 1 + length fds1 + tmax (tneed n' e) fds1 + 2 * length (enc_fields e vs1 fds1))%nat).
+  { apply need_fields_bound. apply fields_bound_aux; [assumption|].
+    intros fd' Hin x tag' req' d' Hx. apply need_bound; [|assumption]. apply Hfin. apply in_or_app. now left. }
+  pose proof (tmax_app_l (tneed n' e) fds1 (fd :: fds2)) as Hm. rewrite app_length in Hn. cbn [length] in Hn.
+  assert (Hlen : (length (enc_fields e vs1 fds1) <= length bs)%nat) by (unfold bs; rewrite app_length; lia).
+  assert (HD : dec_fields (S (4 * length bs + 63)) e (fds1 ++ fd :: fds2) (ps1 ++ ps2) bs = DErr).
+  { revert Hlen. unfold bs. rewrite <- (encx_nil e vs1 fds1) by (now apply Forall2_len in H1). intros Hlen.
+    apply (fields_required_absent e k Hwf _ fds1 vs1 ps1 ps2 _ None); try assumption.
+    - apply junks_nil.
+    - apply enc_fields_follows; [|assumption]. now apply (schema_ascending_mid fds1).
+    - unfold fuel_ok. rewrite encx_nil in * by (now apply Forall2_len in H1). lia. }
+  now rewrite HD.
+Qed.
+Print Assumptions required_absent.
+Print Assumptions extras_ignored.
